@@ -114,6 +114,11 @@ type ftpPassiveSocket struct {
 	wg        sync.WaitGroup
 	err       error
 	tlsConfig *tls.Config
+
+	// m guards closed, listener and the hand-over of an accepted connection
+	m        sync.Mutex
+	closed   bool
+	listener net.Listener
 }
 
 func newPassiveSocket(host string, port int, sessionid string, tlsConfig *tls.Config) (DataSocket, error) {
@@ -155,7 +160,20 @@ func (socket *ftpPassiveSocket) Write(p []byte) (n int, err error) {
 	return socket.conn.Write(p)
 }
 
+// Close ends the data connection. While the peer has not connected yet it
+// ends the wait for it: a peer that turns up after the session is over (or
+// after the socket has been replaced) is not accepted any more - its
+// connection was accepted, kept by nobody and never closed.
 func (socket *ftpPassiveSocket) Close() error {
+	socket.m.Lock()
+	defer socket.m.Unlock()
+
+	socket.closed = true
+
+	if socket.listener != nil {
+		socket.listener.Close()
+	}
+
 	if socket.conn != nil {
 		return socket.conn.Close()
 	}
@@ -196,16 +214,29 @@ func (socket *ftpPassiveSocket) GoListenAndServe(sessionid string) (err error) {
 		listener = tls.NewListener(listener, socket.tlsConfig)
 	}
 
+	socket.m.Lock()
+	socket.listener = listener
+	socket.m.Unlock()
+
 	go func() {
 		conn, err := listener.Accept()
 		// one data connection per passive socket
 		listener.Close()
+
+		socket.m.Lock()
+		if err == nil && socket.closed {
+			conn.Close()
+			err = net.ErrClosed
+		}
+
 		if err != nil {
 			socket.err = err
 		} else {
 			socket.err = nil
 			socket.conn = conn
 		}
+		socket.m.Unlock()
+
 		socket.wg.Done()
 	}()
 	return nil
